@@ -49,6 +49,9 @@ def gen_body(rng):
     if re.match(rb'^\s*[A-Za-z0-9][A-Za-z0-9_ \t\-\.]*:', d) or d.startswith(b'---'):
         d = b'Body starts here.\n\n' + d
     d = d.replace(b'[%', b'[ %').replace(b'{{', b'{ {')
+    if rng.random() < 0.08:
+        # a glossary definition that itself cites / carries a note: in complete LaTeX documents the definitions are written into the preamble
+        d += b'\n\nFirst[#cz1] and the term [?gz] and later[#cz2].\n\n[?gz]: A definition that cites[#cz2] and notes[^nz].\n\n[#cz1]: One.\n\n[#cz2]: Two.\n\n[^nz]: note\n'
     if rng.random() < 0.2:
         # users of hidden state (obfuscation random numbers, counters): the wrapper must not disturb them
         d += b'\n\n' + gen.state_heavy(rng).replace(b'{{TOC}}', b'')
@@ -130,7 +133,8 @@ def check_case(r, s, rng, fmt):
     site = '%s:%s' % (fmt, kind)
 
     def bad(key, what, detail):
-        r.violate('%s:%s' % (key, fmt), what, dict(requests=list(c.reqs[-4:])), (detail + '\nsource: ' + core.show(src, 500))[:2500])
+        cause = ':glossary-definition-with-citation' if (b'[?gz]:' in body and fmt in ('latex', 'beamer', 'memoir') and key in ('snippet-not-in-complete', 'default-is-neither')) else ''
+        r.violate('%s:%s%s' % (key, fmt, cause), what, dict(requests=list(c.reqs[-4:])), (detail + '\nsource: ' + core.show(src, 500))[:2500])
     S = c.out(src, E['SNIPPET'])
     F = c.out(src, E['COMPLETE'])
     Dd = c.out(src, 0)
